@@ -51,6 +51,17 @@ reader:
 	for {
 		typed, _, err := r.ReadTypedMsg()
 		if err != nil {
+			// NOTE: the body of a message exceeding the maximum message size has
+			// not been consumed. It has to be skipped before the error is returned
+			// to keep the upcoming messages readable.
+			exceeded, has := buffer.UnwrapMessageSizeExceeded(err)
+			if has {
+				serr := r.Slurp(exceeded.Size)
+				if serr != nil {
+					return serr
+				}
+			}
+
 			return err
 		}
 
